@@ -388,6 +388,25 @@ func runC02(c *report.Ctx) {
 		}
 	}
 
+	// ---- fee subtraction base ------------------------------------------------------------------------------
+	c.Rule("fee-subtraction-base", "recipients' fee shares are always computed from the requested amounts, never from amounts that already had a share subtracted", 2)
+	crt := fn(c, pkgWallet, "WalletManager", "CreateRawTransaction")
+	msf := fn(c, pkgWallet, "", "maybeSubtractFeeFromAmounts")
+	if crt != nil && msf != nil {
+		ss := calls(crt, msf)
+		if len(ss) == 0 {
+			c.Fail(sk(crt)+":maybeSubtractFeeFromAmounts", "anchor lost: CreateRawTransaction no longer computes fee shares through maybeSubtractFeeFromAmounts", p.Pos(crt.Pos()))
+		}
+		for i, s2 := range ss {
+			key := siteKey(crt, "maybeSubtractFeeFromAmounts(amounts)", i+1)
+			if par, ok := an.CallOf(s2).Args[0].(*ssa.Parameter); ok && par.Parent() == crt {
+				c.OK(key, "first argument is the request's amounts parameter", posOf(c, s2))
+			} else {
+				c.Fail(key, "fee shares are subtracted from "+p.Desc(an.CallOf(s2).Args[0])+" instead of the requested amounts: recipients chosen to bear the fee are reduced twice and the surplus silently goes to the change output", posOf(c, s2))
+			}
+		}
+	}
+
 	// ---- selector heap ----------------------------------------------------------------------------------
 	c.Rule("selector-heap", "when the top-K buffer fills, the heap is built by sifting down every inner node including the root (index 0): otherwise the minimum is not at the root and eligible coins larger than it are rejected", 1)
 	submitF := fn(c, pkgWallet, "topKSelector", "submit")
